@@ -119,8 +119,7 @@ pub fn check_body(mapfile: &str, body: &str, vals: &[Valuation]) -> (String, Vec
         let mut runs = vec![];
         for (vi, val) in vals.iter().enumerate() {
             if negative[vi] { runs.push((vi, None)); continue; }
-            let a = run_astvm(truth, &block.0, val, 0);
-            let b = run_astvm(truth, &des.0, val, 0);
+            let (a, b) = run_astvm_pair(truth, &block.0, &des.0, val, 0);
             runs.push((vi, Some((a, b))));
         }
         Ok((runs, truth::fmt::stringify(&des)))
@@ -145,7 +144,7 @@ pub fn check_body(mapfile: &str, body: &str, vals: &[Valuation]) -> (String, Vec
             break;
         }
         if a.stopped.is_some() || b.stopped.is_some() { discards.push("iteration-cap(prefix compared)".into()); }
-        if let Some(diff) = compare_traces(&a, &b, &cmp_regs, true) {
+        if let Some(diff) = compare_traces_term(&a, &b, &cmp_regs, true) {
             failures.push(Failure { signature: format!("C06:behaviour:{body}"), detail: detail(json!({"valuation": vi, "diff": diff, "desugared": des_text})) });
             break;
         }
